@@ -177,14 +177,15 @@ func buildEBNF(root bool, n node, seen map[node]string, p *ebnfp, outp *[]*ebnfp
 			inner = child.node
 		}
 		if child, ok := inner.(*group); ok && child.mode == groupMatchOnce {
-			buildEBNF(false, child.expr, seen, p, outp)
-		} else if n.mode != groupMatchOnce && endsWithModifier(inner) {
+			inner = child.expr
+		}
+		if n.mode != groupMatchOnce && endsWithModifier(inner) {
 			// A modifier applied to an already modified term needs parentheses: (x+)? not x+?.
 			p.out += "("
 			buildEBNF(false, inner, seen, p, outp)
 			p.out += ")"
 		} else {
-			buildEBNF(false, n.expr, seen, p, outp)
+			buildEBNF(false, inner, seen, p, outp)
 		}
 		switch n.mode {
 		case groupMatchNonEmpty:
